@@ -5,6 +5,7 @@ package reader
 import (
 	"context"
 
+	"github.com/sasha-s/go-deadlock"
 	clientv3 "go.etcd.io/etcd/client/v3"
 
 	"github.com/milvus-io/milvus/pkg/mq/msgdispatcher"
@@ -15,6 +16,9 @@ import (
 
 // verifYield is a no-op unless built with the verif tag (see verif_on.go).
 func verifYield(point string, channel string, collectionID int64) {}
+
+// verifYieldIfFree is a no-op unless built with the verif tag.
+func verifYieldIfFree(l *deadlock.RWMutex, point string, channel string, collectionID int64) {}
 
 // verifNote is a no-op unless built with the verif tag; it never blocks.
 func verifNote(point string, channel string, a uint64, ref any) {}
